@@ -53,7 +53,7 @@ class DrvProp(diffcheck.DiffProp):
         return [case[0]] + out[1:1 + 3 * n]
 
     def model_expected(self, case, out):
-        if not out or out[0] == 99999:
+        if not out or out[0] == 99999 or len(out) < 2 + 3 * out[0]:
             return [1, 0, 1]
         evs, _ = parse(out)
         nkeys = sum(1 for e in evs if e[0] == K["NEW"])
